@@ -1655,6 +1655,13 @@ static iwrc _fsm_reallocate(struct IWFS_FSM *f, off_t nlen, off_t *oaddr, off_t 
   }
   rc = _fsm_ctrl_wlock(fsm);
   RCRET(rc);
+  if (  IW_RANGES_OVERLAP(oaddr_blk, oaddr_blk + olen_blk, 0, (fsm->hdrlen >> fsm->bpow))
+     || IW_RANGES_OVERLAP(oaddr_blk, oaddr_blk + olen_blk, (fsm->bmoff >> fsm->bpow),
+                          (fsm->bmoff >> fsm->bpow) + (fsm->bmlen >> fsm->bpow))) {
+    // Deny reallocation of the header or the free-space bitmap itself, as deallocate does
+    rc = IWFS_ERROR_FSM_SEGMENTATION;
+    goto finish;
+  }
   if (nlen_blk < olen_blk) {
     rc = _fsm_blk_deallocate_lw(fsm, oaddr_blk + nlen_blk, olen_blk - nlen_blk);
     if (!rc) {
